@@ -146,6 +146,8 @@ type View struct {
 	dead bool
 	// BeforeSave, if set, is called before a file becomes durable (a gate).
 	BeforeSave func(path string)
+	// BeforeRead, if set, is called before every ReadAt through this view (a gate).
+	BeforeRead func(path string)
 	// FailSave, if set, may return an error for a save: the file does not become durable (injected storage fault).
 	FailSave func(path string) error
 }
@@ -195,6 +197,9 @@ type file struct {
 }
 
 func (f *file) ReadAt(p []byte, off int64) (int, error) {
+	if br := f.v.BeforeRead; br != nil {
+		br(f.path)
+	}
 	f.mu.Lock()
 	defer f.mu.Unlock()
 	if f.write {
